@@ -13,6 +13,14 @@ def lst(vals):
     return "[" + ",".join(map(str, vals)) + "]"
 
 
+def long_fills(rng, tier):
+    """Fill / Repeat far beyond the first doublings of the copy loop"""
+    sc = []
+    for n in ([4097, 8193, 12289, 16385, 40000] if tier == "quick" else [4097, 12289, 16385, 65537, 100001, 300000]):
+        sc += ["repeat 3 %d" % n, "fill [%s] 9" % ",".join(["0"] * n)]
+    return sc
+
+
 def explore(core, rng, tier, seed, search=False):
     scripts = []
     maxlen = 6 if tier == "quick" else 9
@@ -52,4 +60,5 @@ def explore(core, rng, tier, seed, search=False):
     # malformed stream (outside the property): negative and far-out positions always panic
     scripts.append(["insert [1,2,3] 1 -1 9", "insert [1,2,3] 1 1000 9", "remove [1,2,3] 0 -1", "remove [1,2,3] 0 3", "remove [] 0 0",
                     "removeslice [1,2,3] 0 2 2", "removeslice [1,2,3] 0 -1 1", "insertslice [1,2] 0 -1 [5]", "insertslice [1,2] 0 1000 [5]"])
+    scripts.append(long_fills(rng, tier))
     return scriptprop.explore(core, ID, scripts, exhaustive=True)
